@@ -689,6 +689,8 @@ fn gen_view(r: &mut Rng, order: u8) -> (EncView, Vec<u8>) {
         let shape = r.below(4);
         let mut syms = al.clone();
         if i > 0 && r.chance(1, 4) && syms.len() > 1 { syms.truncate(1 + r.below(syms.len() as u64 - 1) as usize); }
+        // single-symbol context trees (one-bit code, leaf root) are a corner of their own
+        if i > 0 && r.chance(1, 5) { syms.truncate(1); }
         if shape != 3 { for j in (1..syms.len()).rev() { let q = r.below(j as u64 + 1) as usize; syms.swap(j, q); } }
         trees.push(gen_table(r, &syms, shape));
     }
@@ -751,8 +753,16 @@ fn run_jobs(jobs: Vec<JobSpec>, sum: &mut Summary, shards: &mut CoqShards, rng: 
 
 pub fn run_cells(sum: &mut Summary, shards: &mut CoqShards, rng: &mut Rng, args: &Args) {
     let th = args.thorough;
+    // cells without a mechanism model of their own (the wrappers, the serialised forms, the SIMD bit buffer)
     for c in ["huffman/order0/serialized_tree", "simd/avx2bmi2", "simd/avx2", "simd/sse42bmi2", "simd/sse42", "simd/bmi2", "simd/scalar", "parallel/adaptive", "bit_ops/varlen"] {
         sum.cell_status(c, "S-only");
+    }
+    for v in ["x2", "x4", "x8"] { for c in ["default", "low_latency", "high_throughput", "always_parallel"] { for a in ["", "/auto_train"] {
+        sum.cell_status(&format!("parallel/{}/{}{}", v, c, a), "S-only");
+    } } }
+    for pfx in ["ctx", "crafted"] {
+        for k in 0..3 { sum.cell_status(&format!("{}/order{}/serialized", pfx, k), "S-only"); }
+        for n in [1, 2, 4, 8] { sum.cell_status(&format!("{}/x{}/serialized", pfx, n), "S-only"); }
     }
     let mut jobs: Vec<JobSpec> = vec![];
     // 1. enumerated universe: all strings of length <= 3 over a 3-letter alphabet x every variant x three trainings
@@ -891,7 +901,7 @@ pub fn run_cells(sum: &mut Summary, shards: &mut CoqShards, rng: &mut Rng, args:
 pub fn run(args: &Args) {
     quiet_panics();
     let mut sum = Summary::new("C01", RULE);
-    let mut shards = CoqShards::new(HEADER_A, 250);
+    let mut shards = CoqShards::new(HEADER_A, 150);
     let mut rng = Rng::new(args.seed);
     if let Some(f) = &args.replay {
         let txt = std::fs::read_to_string(f).expect("replay file");
